@@ -83,6 +83,11 @@ def content_dispatch(prog: Program):
             elif stmt.orelse:
                 fall = stmt.orelse
             return
+        if ns is None and not any(isinstance(x, ast.Name) and x.id == var for x in ast.walk(stmt.test)):
+            # a test that does not look at the content-rule name ends the dispatch: what it guards is the fall-through
+            # (`elif errs is None: raise ... else: errs.append(...)`, the lowered form of `case _ if errs is None:` / `case _:`)
+            fall = [stmt]
+            return
         if ns is None:
             raise AnalysisError(f"{fi.loc(stmt)}: dispatch test `{norm(stmt.test)}` in _validate_content is not a comparison "
                                 f"of `{var}` with constant names")
